@@ -195,6 +195,12 @@ func (v *View) Apply(e *d.Event, strict bool) {
 		if _, ok := v.Comps[k]; ok && strict && v.tracks(k.Type) && v.HaveState {
 			v.problem("component add broadcast for (%d,%d) it already has", k.Type, k.Entity)
 		}
+		// components exist on existing entities only (C12): a relay for an entity
+		// the view does not (or no longer) hold is older than that entity's
+		// removal - the same rule as for actions and assets below
+		if _, ok := v.Entities[k.Entity]; !ok && v.HaveState {
+			return
+		}
 		v.Comps[k] = c.Data
 	case *hagallpb.EntityComponentUpdateBroadcast:
 		c := m.EntityComponent
@@ -205,6 +211,9 @@ func (v *View) Apply(e *d.Event, strict bool) {
 		k := CompKey{c.EntityComponentTypeId, c.EntityId}
 		if _, ok := v.Comps[k]; !ok && strict && v.tracks(k.Type) && v.HaveState {
 			v.problem("component update broadcast for (%d,%d) it was never told about", k.Type, k.Entity)
+		}
+		if _, ok := v.Entities[k.Entity]; !ok && v.HaveState {
+			return
 		}
 		v.Comps[k] = c.Data
 	case *hagallpb.EntityComponentDeleteBroadcast:
